@@ -50,6 +50,12 @@ inductive CliErr where
   | unsupported (why : String)
   deriving Repr, DecidableEq
 
+deriving instance DecidableEq for Except
+
+def isUnsupported : Except CliErr Call → Bool
+  | .error (.unsupported _) => true
+  | _ => false
+
 /-- the namespace: latest binding first -/
 abbrev Ns := List (String × Val)
 
@@ -534,6 +540,12 @@ def dispatch (h : HelperSpec) (argv : List String) : Except CliErr Call :=
   match specOf h with
   | some s => dispatchSpec s argv
   | none => .error (.unsupported "no call templates for this helper")
+
+/-- `dispatch` for the helper of a sub-command given by kind ("formula" / "transformation") and name -/
+def dispatchNamed (kind name : String) (argv : List String) : Except CliErr Call :=
+  match helpers.find? (fun h => h.kind == kind && h.name == name) with
+  | some h => dispatch h argv
+  | none => .error (.unsupported "no such sub-command")
 
 def supportedNames (kind : String) : List String :=
   (cliSpecs.filter (fun s => s.kind == kind && s.supported)).map (·.name)
